@@ -23,19 +23,26 @@ def to_smt2(assumptions, goal):
     return s.to_smt2()
 
 
+_QF_IDS = set()
+
+
 def has_quantifier(e, seen=None):
-    if seen is None:
-        seen = set()
+    """does the term contain a quantifier? Quantifier-free subterms are remembered globally
+    (terms share most of their structure along a path)."""
     todo = [e]
+    visited = []
+    local = set()
     while todo:
         x = todo.pop()
         i = x.get_id()
-        if i in seen:
+        if i in _QF_IDS or i in local:
             continue
-        seen.add(i)
+        local.add(i)
         if z3.is_quantifier(x):
             return True
+        visited.append(i)
         todo.extend(x.children())
+    _QF_IDS.update(visited)
     return False
 
 
